@@ -489,6 +489,9 @@ def render(ns: str, data) -> dict:
     L = [hdr, "namespace GapicModel." + ns, ""]
     for k, v in data["templates"].items():
         L.append(f"def {k} : List String := {lean_strlist(v)}")
+        # the same paths as explicit character lists (String.toList on literals is very slow in the kernel)
+        rows = ", ".join("[" + ", ".join(lean_char(ord(ch)) for ch in x) + "]" for x in v)
+        L.append(f"def {k}Chars : List (List Char) := [{rows}]")
     L += ["", "end GapicModel." + ns, ""]
     files["Templates.lean"] = "\n".join(L)
     return files
@@ -496,7 +499,7 @@ def render(ns: str, data) -> dict:
 
 def item_names(data):
     names = {"Tables": list(data["tables"].keys()), "CharClass": ["spaceRanges", "wordRanges", "digitRanges"],
-             "Regexes": [], "Templates": list(data["templates"].keys())}
+             "Regexes": [], "Templates": [x for k in data["templates"].keys() for x in (k, k + "Chars")]}
     for n, e in data["regexes"].items():
         names["Regexes"].append(n)
         if e.get("repl") is not None:
